@@ -154,6 +154,24 @@ pub fn run_case(w: &[&str]) -> Option<String> {
                 Err(reply) => reply,
             })
         }
+        // diagnostic (not part of the tie): where the real pipeline panics
+        ["parol-ll-where", st, enc, maxk] => {
+            static WHERE: std::sync::Mutex<String> = std::sync::Mutex::new(String::new());
+            std::panic::set_hook(Box::new(|info| {
+                let loc = info.location().map(|l| format!("{}:{}", l.file(), l.line())).unwrap_or_default();
+                let msg = info.payload().downcast_ref::<&str>().map(|s| s.to_string())
+                    .or_else(|| info.payload().downcast_ref::<String>().cloned()).unwrap_or_default();
+                *WHERE.lock().unwrap() = format!("{loc}:{}", msg.replace(' ', "_"));
+            }));
+            let words = ["parol-ll", *st, *enc, *maxk];
+            let r = std::panic::catch_unwind(|| run_case(&words));
+            std::panic::set_hook(Box::new(|_| {}));
+            Some(match r {
+                Ok(Some(_)) => "no-panic".to_string(),
+                Ok(None) => "bad-op".to_string(),
+                Err(_) => format!("panic-at {}", WHERE.lock().unwrap()),
+            })
+        }
         ["parol-ll-grammar", st, enc] => Some(match transformed_config(st, enc)? {
             Ok(gc) => {
                 let names: Vec<String> = gc.cfg.get_non_terminal_set().into_iter().collect();
@@ -324,7 +342,13 @@ pub fn generate(seed: u64, thorough: bool) -> Vec<String> {
             _ => random_ll_ebnf(&mut rng, false),
         };
         let enc = show_ebnf(&prods);
-        if enc.len() > 400 {
+        // Names ending in usize::MAX are left to C26/C33: known finding F35 (`utils::generate_name`
+        // counts up from a parsed numeric suffix and overflows, utils/mod.rs:64) is reached here
+        // through a third route — `generate_parser_export_model` → `build_production_datatypes_export_model`
+        // → `SymbolTable::make_unique_name` when a production uses such a non-terminal twice, e.g.
+        // `S: T18446744073709551615 T18446744073709551615; T18446744073709551615: "t6";` (panic in
+        // debug builds; diagnostic request `parol-ll-where`).
+        if enc.len() > 400 || enc.contains("18446744073709551615") {
             continue;
         }
         let k = rng.range(1, 3);
